@@ -511,3 +511,85 @@ Proof.
   - exists s, te. split; [exact Hs|]. split; [exact He|]. apply split_preserves_language. exact HM.
 Qed.
 
+(* ---- completeness: the statement, and where the faithful model misses ---------- *)
+(* every start of an occurrence of the chain is reported (one match per start:
+   run_chain_sorted) *)
+Definition chain_complete_starts (nc : bool) (c : re * list (gap * re)) (d : bytes) (reported : match_list) : Prop :=
+  forall s e, M nc d (join_chain c) s e -> exists y, In y reported /\ m_start y = N.of_nat s.
+
+(* ... with, for a lazy pattern, the end of the nearest last piece that closes a
+   chain from that start, and for a greedy one the farthest *)
+Definition chain_end_choice (nc greedy : bool) (c : re * list (gap * re)) (d : bytes) (reported : match_list) : Prop :=
+  forall y s, In y reported -> m_start y = N.of_nat s ->
+    exists e, m_end y = N.of_nat e /\ M nc d (join_chain c) s e /\
+              forall e', M nc d (join_chain c) s e' -> if greedy then e' <= e else e <= e'.
+
+(* One end per (piece, start) and a BOUNDED gap measured from that end: an occurrence
+   whose first piece has to take its longer end is missed.
+   { 2E [1-2] 42 [0-201] 0A 7F } on ".aBB" + 201 x 'x' + 0A 7F: 2E, jump 2, 42 at
+   offset 3, gap 201, 0A 7F is an occurrence, the shorter end (offset 3) of the first
+   piece is 202 bytes away from the second.  Replayed on the implementation: reports
+   nothing (known finding C01:scan:chain-piece-variable-length-bounded-gap). *)
+Definition missed_items : list re :=
+  [RCls (CByte 46); RRep (RCls CAny) 1 (Some 2) false; RCls (CByte 66); RRep (RCls CAny) 0 (Some 201) false;
+   RCls (CByte 10); RCls (CByte 127)].
+Definition missed_data : bytes := [46; 97; 66; 66]%N ++ repeat 120%N 201 ++ [10; 127]%N.
+
+Theorem chain_complete_one_end_refuted :
+  exists items d, ~ chain_complete_starts false (split_at_large_gaps items) d
+                      (scan_chain_abs false false false (split_at_large_gaps items) d).
+Proof.
+  exists missed_items, missed_data. intro H.
+  assert (E : scan_chain_abs false false false (split_at_large_gaps missed_items) missed_data = [])
+    by (vm_compute; reflexivity).
+  assert (Em : memb 207 (ends false missed_data (join_chain (split_at_large_gaps missed_items)) 0) = true)
+    by (vm_compute; reflexivity).
+  destruct (H 0 207) as [y [Hy _]].
+  - apply ends_spec. exact (proj1 (memb_In _ _) Em).
+  - rewrite E in Hy. exact Hy.
+Qed.
+
+(* with every end of every piece fed to the same bookkeeping the occurrence is found:
+   the miss is the piece matcher's, not the bookkeeping's *)
+Example missed_found_with_all_ends :
+  map (fun y => (m_start y, m_end y)) (scan_chain_all_ends false false false (split_at_large_gaps missed_items) missed_data)
+  = [(0, 207)]%N.
+Proof. vm_compute. reflexivity. Qed.
+
+(* The wide form: the pieces are widened, the gap stays a byte distance, so a match
+   can contain bytes that are not wide characters.  /ab.*cd/s wide on
+   a\0 b\0 x c\0 d\0: reported 0..9 (known finding C01:scan:wide-regexp-split-at-large-gap) *)
+Definition wide_items : list re :=
+  [RCls (CByte 97); RCls (CByte 98); RRep (RCls CAny) 0 None true; RCls (CByte 99); RCls (CByte 100)].
+Definition wide_data : bytes := [97; 0; 98; 0; 120; 99; 0; 100; 0]%N.
+
+Theorem chain_wide_gap_refuted :
+  exists items d y, In y (scan_chain_abs false true true (split_at_large_gaps items) d) /\
+    exists s te, m_start y = N.of_nat s /\ m_end y = N.of_nat te /\ ~ M false d (widen_re (rcat items)) s te.
+Proof.
+  assert (E : scan_chain_abs false true true (split_at_large_gaps wide_items) wide_data = [mkM 0 9 None])
+    by (vm_compute; reflexivity).
+  assert (Em : memb 9 (ends false wide_data (widen_re (rcat wide_items)) 0) = false)
+    by (vm_compute; reflexivity).
+  exists wide_items, wide_data, (mkM 0 9 None). split.
+  - rewrite E. left. reflexivity.
+  - exists 0, 9. split; [reflexivity|]. split; [reflexivity|].
+    intro H. apply ends_spec in H. apply (proj2 (memb_In _ _)) in H. rewrite Em in H. discriminate.
+Qed.
+
+(* the hypotheses of chain_literal_sound are satisfiable: a two-piece chain *)
+Example chain_literal_sound_example :
+  let items := [RCls (CByte 97); RCls (CByte 98); RRep (RCls CAny) 0 None false; RCls (CByte 99); RCls (CByte 100)] in
+  let pieces := [mkCP false [97; 98]%N no_flags false false None;
+                 mkCP false [99; 100]%N no_flags true false (Some (0, GUnbounded 0))] in
+  let atoms := [mkAtom 0 [97; 98]%N 0 true; mkAtom 1 [99; 100]%N 0 true] in
+  let d := [97; 98; 120; 99; 100; 99; 100]%N in
+  chain_shape pieces (split_at_large_gaps items) /\
+  map (fun y => (m_start y, m_end y)) (scan_chain pieces atoms (all_hits atoms d) d) = [(0, 5)]%N.
+Proof.
+  cbv zeta. split.
+  - split; [vm_compute; reflexivity|].
+    intros id p H. destruct id as [|[|id]]; cbn [nth_error] in H; try (destruct id; discriminate);
+      inversion H; subst p; (split; [vm_compute; reflexivity|]); cbn [cp_last]; try discriminate. intros _. vm_compute. reflexivity.
+  - vm_compute. reflexivity.
+Qed.
